@@ -1012,9 +1012,9 @@ pub fn check(rep: &mut Report) {
         sweep_tokens(rep, len);
     }
     sweep_trees(rep, rep.tier == Tier::Thorough);
-    sweep_spellings(rep, rep.tier.pick(3, 4));
+    sweep_spellings(rep, rep.tier.pick(5, 6));
     sweep_literals(rep, rep.tier.pick(6, 7));
-    rep.rule = "every token string of length <= L over a 25-token alphabet (operators of every tier, call, field access, conditionals, unicode exponents), joined by single spaces, parsed by the real parser (S-expression hook) and by a reference parser written from the documented EBNF and precedence table (three-valued verdict); every expression tree of depth <= 2 over all operator tiers rendered fully parenthesised, with each single pair of parentheses removed, and minimally parenthesised; every single spelling substitution in every string of length <= 3; every character string of length <= 6/7 over the literal alphabet 019_.eE+-xobaf; non-trivial = strings the documents accept".into();
+    rep.rule = "every token string of length <= L over a 25-token alphabet (operators of every tier, call, field access, conditionals, unicode exponents), joined by single spaces, parsed by the real parser (S-expression hook) and by a reference parser written from the documented EBNF and precedence table (three-valued verdict); every expression tree of depth <= 2 over all operator tiers rendered fully parenthesised, with each single pair of parentheses removed, and minimally parenthesised; every single spelling substitution in every string of length <= 5 (thorough 6) over a 14-token alphabet; every character string of length <= 6/7 over the literal alphabet 019_.eE+-xobaf; non-trivial = strings the documents accept".into();
     rep.assumptions = vec![
         "where the book's table (separate rows for / and *, - and +) and the EBNF (one left-associative tier) give different trees, either is accepted".into(),
         "unspecified by the documents: trailing commas, a second unicode exponent, underscores other than between digits, `0x` without digits".into(),
